@@ -1211,7 +1211,8 @@ func (self *PathNode) scanChildren(p *thrift.BinaryProtocol, recurse bool, opts 
 
 		if kt == thrift.STRING {
 			// fast path: use hash to store the key.
-			if opts.StoreChildrenByHash && size > StoreChildrenByIntHashShreshold {
+			// NOTICE: the table is sized by the declared count, thus a count which the rest of the input can't hold (at least 5 bytes per entry) is not trusted
+			if opts.StoreChildrenByHash && size > StoreChildrenByIntHashShreshold && size <= (len(p.Buf)-p.Read)/5 {
 				// NOTE: we use original count*2 as the capacity of the hash table.
 				N = size * 2
 				guardPathNodeSlice(&con, N-1)
@@ -1239,7 +1240,8 @@ func (self *PathNode) scanChildren(p *thrift.BinaryProtocol, recurse bool, opts 
 			}
 		} else if kt.IsInt() {
 			// fast path: use hash to store the key.
-			if opts.StoreChildrenByHash && size > StoreChildrenByIntHashShreshold {
+			// NOTICE: the table is sized by the declared count, thus a count which the rest of the input can't hold (at least 2 bytes per entry) is not trusted
+			if opts.StoreChildrenByHash && size > StoreChildrenByIntHashShreshold && size <= (len(p.Buf)-p.Read)/2 {
 				// NOTE: we use original count*2 as the capacity of the hash table.
 				N = size * 2
 				guardPathNodeSlice(&con, N-1)
